@@ -169,7 +169,7 @@ def truthy : PyVal → Bool
 /-- `int(x)` for a number: truncation toward zero. -/
 def toInt : PyVal → Except Err Int
   | .int i => .ok i
-  | .flt (.fin q) => .ok (if q ≥ 0 then q.floor else -((-q).floor))
+  | .flt (.fin q) => if q.den == 1 then .ok q.num else .error .value     -- a length is a whole number of bits
   | .flt .negZero => .ok 0
   | .flt (.inf _) => .error .other      -- OverflowError
   | .flt .nan => .error .value
